@@ -6,7 +6,11 @@ installed, signature gate before a version or a share is recorded in the
 servermap, signed prefix covers every verinfo field Retrieve relies on, hash
 gates before a block leaves Retrieve._validate_block, only validated blocks are
 decoded, only decoded+decrypted segments are written (DESIGN.md section 5, C10); a share whose bytes cannot be
-parsed or validated reaches Retrieve._handle_bad_share as an exception type it tolerates (C10.12, C10.13)."""
+parsed or validated reaches Retrieve._handle_bad_share as an exception type it tolerates (C10.12, C10.13); the hash
+trees those gates consult accept a hash only when its chain reaches the trusted root and are left exactly as they were
+by a rejected offer - Retrieve keeps ONE share hash tree for all shares of a read and one block hash tree per share for
+all segments, so whatever a rejected forged share leaves behind is what the next shares are compared with (C10.14.*,
+the set_hashes rules of C35)."""
 from sa.h import *
 from sa.cfg import reaching_defs, PARAM_DEF
 
@@ -43,7 +47,16 @@ EXPLANATION = (
     "whose handler does), the conversion errback really does that, and no public reader method can raise struct.error "
     "synchronously; (14, rule C10.13) Retrieve._handle_bad_share's trap includes BadShareError and every exception raised explicitly "
     "in MDMFSlotReadProxy and Retrieve._validate_block is a package class derived from a trapped class. "
-    "Undecided: RSA / SHA-256d strength, hashtree arithmetic, zfec algebra, the rest of availability (k intact shares => "
+    "(15, rules C10.14.*, shared with C35) the gates of (6) are only as good as IncompleteHashTree.set_hashes, and "
+    "Retrieve feeds every share of a read into the same share_hash_tree (and every segment of a share into the same "
+    "block hash tree), with hash numbers and hashes chosen by the server: every store into the tree made by a call is "
+    "scheduled for roll-back (offered hashes and the parents computed from them alike) and only those are; the roll-back "
+    "handler covers every rejection raised in the region including the IndexError of an out-of-range hash number, undoes "
+    "every scheduled store and re-raises; a known node is never overwritten and a mismatch with it raises BadHashError; "
+    "every stored node is checked against its parent (sibling required, parent = pair_hash of the sorted pair, computed "
+    "parent stored and enqueued one level up, only the root is skipped, levels bottom-up) - so a call returns normally "
+    "only when everything it added hangs off the trusted root, and a call that raises leaves nothing behind. "
+    "Undecided: RSA / SHA-256d strength, the index algebra and the writer-side shape of the hash trees (C35.5-C35.8), zfec algebra, the rest of availability (k intact shares => "
     "success: share selection and replacement, exceptions other than struct.error that malformed server answers could "
     "provoke in the reader such as IndexError on an empty read vector; "
     "this includes edits that only make a gate stricter, e.g. `and` -> `or` in the SDMF IV test, skipping "
@@ -51,7 +64,7 @@ EXPLANATION = (
     "handling, the values of the trim bounds ((offset + read_length) % segment_size, offset % segment_size) and the "
     "order tail-before-head, the start/last segment arithmetic of _setup_encoding_parameters and _decode_blocks' own "
     "trimming (C09), publish-side surprise handling (C12).")
-TECHNIQUE = "static analysis: CFG must-precede gates on normalised edge facts, who-may-call/write sweeps, Deferred chain order, reaching definitions, exception-type containment along Deferred chains and the class hierarchy"
+TECHNIQUE = "static analysis: CFG must-precede gates on normalised edge facts, who-may-call/write sweeps, Deferred chain order, reaching definitions, exception-type containment along Deferred chains and the class hierarchy, rollback pairing (journal / undo) on the hash-tree store"
 
 SM = "mutable.servermap:ServermapUpdater"
 SMAP = "mutable.servermap:ServerMap"
@@ -1563,3 +1576,23 @@ def run(ctx: Context):
                               ", ".join(sorted(c.name for c in roots)) or "nothing"))
         if n_raise < 2:
             raise AnchorVanished("raise statements in MDMFSlotReadProxy / Retrieve._validate_block")
+
+    # -- 14. the hash trees behind the gates of rule 6: acceptance and rejection discipline of set_hashes -------------
+    # Retrieve validates every share of a read against ONE share_hash_tree (bound once in _setup_download, C10.7) and every
+    # segment of a share against one block hash tree; the hash numbers and hashes offered come from the storage server.
+    # A set_hashes call that raises must therefore leave no trace (else k further forged shares validate against the
+    # leftovers of a rejected one), and a call that returns must have tied everything it added to the signed root.
+    # These are the conditions C35 decides on IncompleteHashTree.set_hashes; C35.9 (IndexError) applies here as well
+    # because the share hash chain's node numbers are unpacked from the share.
+    _need_set_hashes_user(idx)
+    ctx.include("C35", ["C35.1", "C35.2", "C35.3", "C35.4", "C35.9"], "C10.14")
+
+
+def _need_set_hashes_user(idx):
+    """The adoption is justified by Retrieve._validate_block consulting IncompleteHashTree objects built in _setup_download."""
+    sd = idx.func(RET + "._setup_download")
+    if not any(call_tail(c) == "IncompleteHashTree" for c in calls_in_func(sd)):
+        raise AnchorVanished("Retrieve._setup_download no longer builds IncompleteHashTree objects")
+    vb = idx.func(RET + "._validate_block")
+    if not calls_in_func(vb, "set_hashes"):
+        raise AnchorVanished("Retrieve._validate_block no longer calls set_hashes")
